@@ -1,0 +1,27 @@
+//go:build verif
+// +build verif
+
+package par2
+
+// Verification-only seam: exports the package-internal filesystem
+// interface and the entry points that take it, so that a simulated,
+// fault-injecting filesystem can be supplied. Compiled only with
+// -tags verif; the shipped behaviour is unchanged.
+
+// VerifFileIO is the package-internal filesystem interface.
+type VerifFileIO = fileIO
+
+// VerifCreate is create with an explicit filesystem.
+func VerifCreate(io VerifFileIO, parPath string, filePaths []string, options CreateOptions) error {
+	return create(io, parPath, filePaths, options)
+}
+
+// VerifVerify is verify with an explicit filesystem.
+func VerifVerify(io VerifFileIO, parPath string, options VerifyOptions) (VerifyResult, error) {
+	return verify(io, parPath, options)
+}
+
+// VerifRepair is repair with an explicit filesystem.
+func VerifRepair(io VerifFileIO, parPath string, options RepairOptions) (RepairResult, error) {
+	return repair(io, parPath, options)
+}
